@@ -42,9 +42,34 @@ func entails(p, q *smt.Term) bool {
 // runDefers executes the deferred calls registered so far, last first, on st.
 // panicking=true while unwinding. It returns false if the path ends (a deferred call never returns).
 func (f *Frame) runDefers(st *State, panicking bool) bool {
+	return f.runDefersFrom(st, len(f.defers), panicking)
+}
+
+// runDefersFrom runs the deferred calls below index n (the ones still on the defer stack when the
+// call at index n is running). A deferred call registered inside a loop stands for zero or more
+// executions of it: everything reachable is forgotten, and afterwards the goroutine may or may not
+// be panicking (sawRepeated), whatever the mode was before.
+func (f *Frame) runDefersFrom(st *State, n int, panicking bool) bool {
 	x := f.x
-	for i := len(f.defers) - 1; i >= 0; i-- {
+	saveIdx, saveIn := f.deferIdx, f.inDefers
+	defer func() { f.deferIdx, f.inDefers = saveIdx, saveIn }()
+	f.inDefers = true
+	for i := n - 1; i >= 0; i-- {
+		f.deferIdx = i
 		d := f.defers[i]
+		if d.repeated {
+			x.note("deferred call inside a loop: modelled as zero or more calls with arbitrary effects, after which the function may be panicking or not")
+			x.havocAll(st, x.B.Fresh("tok", RefS))
+			if clo, ok := d.fn.(*Closure); ok {
+				for _, b := range clo.Binds {
+					if p, ok := b.(*Ptr); ok && p.Cell != nil {
+						x.havocCell(st, p.Cell)
+					}
+				}
+			}
+			f.sawRepeated = true
+			continue
+		}
 		run := func(s *State) bool {
 			c := &d.call.Call
 			var v Value
@@ -89,29 +114,37 @@ func (f *Frame) runDefers(st *State, panicking bool) bool {
 
 // raise propagates a panic that starts in state ps inside this frame: own deferred calls run
 // (they may recover), then the caller's, until the frame under verification records the exit.
+// A panic raised while deferred calls are running (during unwinding or at a normal return)
+// replaces the current one and continues with the calls still on the defer stack, as in Go.
 func (f *Frame) raise(ps *State, why string, ins ssa.Instruction) {
 	x := f.x
 	if ps.Dead || ps.PC.IsFalse() {
 		return
 	}
-	if f.unwinding {
-		// a panic inside a deferred call while unwinding: replaces the current panic; keep unwinding
-		// in the outer loop (sound over-approximation: state is already the panicking one)
-		return
-	}
 	rec := &recovery{val: f.panicValue()}
-	if len(f.defers) > 0 {
+	start := len(f.defers)
+	if f.inDefers {
+		start = f.deferIdx
+	}
+	saw := false
+	if start > 0 {
+		saveRec, saveUnw, saveSaw := f.recovering, f.unwinding, f.sawRepeated
 		f.unwinding = true
 		f.recovering = rec
-		ok := f.runDefers(ps, true)
-		f.recovering = nil
-		f.unwinding = false
+		f.sawRepeated = false
+		ok := f.runDefersFrom(ps, start, true)
+		saw = f.sawRepeated
+		f.recovering, f.unwinding, f.sawRepeated = saveRec, saveUnw, saveSaw
 		if !ok {
 			return
 		}
 	}
-	if rec.recovered {
+	if rec.recovered || saw {
 		// normal return through the recover block
+		rs0 := ps
+		if saw && !rec.recovered {
+			rs0 = ps.clone()
+		}
 		var rs []Value
 		if rb := f.fn.Recover; rb != nil {
 			sc, si := f.cur, f.curIdx
@@ -124,7 +157,7 @@ func (f *Frame) raise(ps *State, why string, ins ssa.Instruction) {
 					}
 					break
 				}
-				if !f.step(ps, instr) {
+				if !f.step(rs0, instr) {
 					break
 				}
 			}
@@ -135,9 +168,16 @@ func (f *Frame) raise(ps *State, why string, ins ssa.Instruction) {
 				rs = append(rs, x.zeroValue(res.At(i).Type()))
 			}
 		}
-		f.rets = append(f.rets, exitRec{st: ps, results: rs, where: "recovered: " + why, kind: "recovered"})
-		return
+		f.rets = append(f.rets, exitRec{st: rs0, results: rs, where: "recovered: " + why, kind: "recovered"})
+		if rec.recovered {
+			return
+		}
 	}
+	f.exitPanic(ps, why, ins, rec.val)
+}
+
+// exitPanic: the panic leaves this frame.
+func (f *Frame) exitPanic(ps *State, why string, ins ssa.Instruction, val Value) {
 	if f.caller != nil && !f.top && f.caller.panicHook != nil {
 		f.caller.panicHook(ps, why, ins)
 		return
@@ -146,7 +186,7 @@ func (f *Frame) raise(ps *State, why string, ins ssa.Instruction) {
 	if ins != nil {
 		w = why + " at " + f.where(ins)
 	}
-	f.panics = append(f.panics, exitRec{st: ps, where: w, kind: "panic", panicV: rec.val})
+	f.panics = append(f.panics, exitRec{st: ps, where: w, kind: "panic", panicV: val})
 }
 
 func (f *Frame) panicValue() Value {
